@@ -241,6 +241,9 @@ func variadic(xs ...int) (n int, err error) {
 }
 
 func (p Pair) Method() string { return p.B }
+
+// a method that happens to carry the injector's name
+func (p Pair) InitA() string { return "method:" + p.B }
 '''
 DOT_SRC = '''package dot
 
@@ -292,6 +295,9 @@ func Check() string {
 	}
 	if n, _ := variadic(1, 2, 3); n != 6 {
 		return "variadic differs"
+	}
+	if (Pair{B: "y"}).InitA() != "method:y" {
+		return "method named like the injector differs"
 	}
 	if (Pair{B: "x"}).Method() != "x" || K2 != 1 || len(table["a"]) != 2 {
 		return "decls differ"
